@@ -2,6 +2,7 @@ package checks
 
 import (
 	"fmt"
+	"github.com/internetarchive/Zeno/internal/pkg/controler/pause"
 	"os"
 	"path/filepath"
 	"strings"
@@ -29,6 +30,10 @@ type c01Scenario struct {
 	NSeeds  int        `json:"n_seeds"`
 	NHubs   int        `json:"n_hubs"`
 	Perturb int        `json:"perturb"`
+	// PauseBeforeStop (C17's pipeline runs): once the crawl has drained, pause the pipeline, compare the
+	// worker gauges with the live workers while they are parked, then stop - while still paused (odd
+	// index) or after a resume (even index)
+	PauseBeforeStop bool `json:"pause_before_stop,omitempty"`
 }
 
 func c01Child(scPath string) int {
@@ -167,6 +172,23 @@ func c01Child(scPath string) int {
 				}
 			}
 		}
+		// every valid, in-scope URL the hubs put into the queue must have been taken from it and crawled
+		if sc.Cfg.MaxHops >= 1 {
+			hubsDelivered := 0
+			for _, l := range olog {
+				if l.Tag == "hub" && l.Completed && l.Status == 200 {
+					hubsDelivered++
+				}
+			}
+			if hubsDelivered >= len(site.Hubs) {
+				for _, s := range site.Seeds {
+					rep.event("queued_seeds_expected", 1)
+					if !requested[s.URL] {
+						rep.violation("queued-seed-never-requested/"+s.Shape, fmt.Sprintf("%s (%s) was linked from a delivered hub page and so entered the queue, but it was never requested although the pipeline is quiescent", s.URL, s.Shape), map[string]any{"seed": s})
+					}
+				}
+			}
+		}
 		if t := reactor.GetStateTable(); len(t) != 0 || reactor.VerifTokensInUse() != 0 {
 			rep.violation("reactor-not-empty-at-quiescence", fmt.Sprintf("state table %v, tokens in use %d", t, reactor.VerifTokensInUse()), nil)
 		}
@@ -234,6 +256,34 @@ func c01Child(scPath string) int {
 			c17 = append(c17, vrec{"pipeline/mean", "mean HTTP response time != sum/count", nil})
 		}
 		rep.event("c17_counter_comparisons", 5)
+	}
+	if sc.PauseBeforeStop && verdict == "quiescent" {
+		pause.Pause("Paused")
+		last, stable := -1, 0
+		for i := 0; i < 300 && stable < 10; i++ { // until the acknowledgements have stopped coming in
+			time.Sleep(20 * time.Millisecond)
+			if n := pr.count("pause.ack"); n == last {
+				stable++
+			} else {
+				last, stable = n, 0
+			}
+		}
+		rep.event("c17_pause_acks", last)
+		w := uint64(max(1, sc.Cfg.Workers))
+		if tot := stats.VerifTotals(); tot != nil && last > 0 && (tot.PreprocessorRoutines != w || tot.ArchiverRoutines != w || tot.PostprocessorRoutines != w) {
+			c17 = append(c17, vrec{"pipeline/worker-gauges-while-paused", fmt.Sprintf("gauges pre=%d arch=%d post=%d while the %d workers of each stage are alive and parked in a pause", tot.PreprocessorRoutines, tot.ArchiverRoutines, tot.PostprocessorRoutines, w), nil})
+		}
+		if sc.Index%2 == 0 {
+			resumed := make(chan struct{})
+			go func() { pause.Resume(); close(resumed) }()
+			select {
+			case <-resumed:
+			case <-time.After(20 * time.Second):
+			}
+			rep.event("c17_stop_after_resume", 1)
+		} else {
+			rep.event("c17_stop_while_paused", 1)
+		}
 	}
 	// ---- stop ----
 	done := make(chan struct{})
